@@ -14,6 +14,7 @@ mod apply_engine;
 mod dist_engine;
 mod path_engine;
 mod parse_engine;
+mod series_engine;
 
 use std::io::Write;
 
@@ -42,6 +43,8 @@ fn main() {
         "path-replay" => path_engine::replay(&mut out, &opts),
         "parse" => parse_engine::run(&mut out, seed, n, &opts),
         "parse-replay" => parse_engine::replay(&mut out, &opts),
+        "series" => series_engine::run(&mut out, seed, n, &opts),
+        "series-replay" => series_engine::replay(&mut out, &opts),
         "fuzzpair" => apply_engine::run_pairs(&mut out, seed, n, &opts),
         "fuzzpair-replay" => apply_engine::replay_pairs(&mut out, &opts),
         other => { eprintln!("unknown engine {}", other); std::process::exit(2); }
